@@ -4,7 +4,10 @@ package c15
 import (
 	"bytes"
 
+	"github.com/fxamacker/cbor/v2"
+
 	"github.com/0chain/common/core/util"
+	"github.com/0chain/common/core/util/wmpt"
 
 	"verifharness/vp"
 )
@@ -12,6 +15,8 @@ import (
 var Harnesses = map[string]func(){
 	"H_CreateNode":     H_CreateNode,
 	"H_CreateNodeLong": H_CreateNodeLong,
+	"H_WmptNode":       H_WmptNode,
+	"H_WmptTrie":       H_WmptTrie,
 }
 
 func decodeAndReencode(in []byte) {
@@ -107,4 +112,191 @@ func H_CreateNodeLong() {
 	}
 	decodeAndReencode(in)
 	vp.Cover("C15.createnodelong.done")
+}
+
+// ---------------------------------------------------------------- weighted trie decoders
+
+func symBytes(name string, n int, sym bool) []byte {
+	if n == 0 {
+		return nil
+	}
+	if sym {
+		return vp.Bytes(name, n)
+	}
+	b := make([]byte, n)
+	for i := range b {
+		b[i] = byte(7*i + 1)
+	}
+	// the weight field (bytes 32..39) stays symbolic where present
+	if n >= 40 {
+		copy(b[32:40], vp.Bytes(name+".w", 8))
+	}
+	return b
+}
+
+var childLens = []int{0, 1, 39, 40, 41, 71, 72, 73, 104}
+var hashLens = []int{0, 31, 32, 33}
+
+// genNode builds a value of the CBOR target type PersistNodeBase within the bounds:
+// any subset of the five variants, child counts 0..18, boundary lengths everywhere.
+func genNode(name string) *wmpt.PersistNodeBase {
+	pn := &wmpt.PersistNodeBase{}
+	// one primary variant explored in full, the other variants present or not in trivial form
+	primary := vp.Choose(name+".primary", 6)
+	extras := []int{0, 31, 1, 2, 4, 8, 16}[vp.Choose(name+".extras", 7)]
+	mask := extras
+	if primary < 5 {
+		mask |= 1 << uint(primary)
+	}
+	if mask&1 != 0 {
+		br := &wmpt.PersistNodeBranch{Hash: symBytes(name+".bhash", 32, false)}
+		if primary == 0 {
+			n := []int{0, 1, 15, 16, 17, 18}[vp.Choose(name+".nchildren", 6)]
+			br.Hash = symBytes(name+".bhash", hashLens[vp.Choose(name+".bhashlen", 4)], false)
+			if n > 0 {
+				br.Children = make([][]byte, n)
+				special := []int{0, n - 1}[vp.Choose(name+".special", 2)]
+				for i := range br.Children {
+					switch {
+					case i == special:
+						br.Children[i] = symBytes(name+".child", childLens[vp.Choose(name+".childlen", len(childLens))], false)
+					case i%2 == 1:
+						br.Children[i] = symBytes(name+".c40", 40, false)
+					}
+				}
+			}
+		}
+		pn.Branch = br
+	}
+	if mask&2 != 0 {
+		pn.Value = &wmpt.PersistNodeValue{Value: []byte{1}, Hash: symBytes(name+".vhash", 32, false), Weight: 1}
+		if primary == 1 {
+			pn.Value = &wmpt.PersistNodeValue{
+				Value:  symBytes(name+".vvalue", []int{0, 1, 3}[vp.Choose(name+".vlen", 3)], true),
+				Hash:   symBytes(name+".vhash", hashLens[vp.Choose(name+".vhashlen", 4)], false),
+				Weight: vp.Uint64(name + ".vweight"),
+			}
+		}
+	}
+	if mask&4 != 0 {
+		pn.Short = &wmpt.PersistNodeShort{Key: []byte{1}, Hash: symBytes(name+".shash", 32, false), Value: symBytes(name+".svalue", 40, false)}
+		if primary == 2 {
+			pn.Short = &wmpt.PersistNodeShort{
+				Key:   symBytes(name+".skey", []int{0, 1, 64}[vp.Choose(name+".sklen", 3)], false),
+				Hash:  symBytes(name+".shash", hashLens[vp.Choose(name+".shashlen", 4)], false),
+				Value: symBytes(name+".svalue", []int{0, 39, 40, 41}[vp.Choose(name+".svlen", 4)], false),
+			}
+		}
+	}
+	if mask&8 != 0 {
+		pn.NilNode = &wmpt.PersistNilNode{}
+	}
+	if mask&16 != 0 {
+		pn.HashNode = &wmpt.PersistHashNode{Hash: symBytes(name+".hhash", 32, false), Weight: 1}
+		if primary == 4 {
+			pn.HashNode = &wmpt.PersistHashNode{Hash: symBytes(name+".hhash", hashLens[vp.Choose(name+".hhashlen", 4)], false), Weight: vp.Uint64(name + ".hweight")}
+		}
+	}
+	return pn
+}
+
+func marshalNode(pn *wmpt.PersistNodeBase) []byte {
+	b, err := cbor.Marshal(pn)
+	if err != nil {
+		panic(err)
+	}
+	return b
+}
+
+// H_WmptNode: every value of the node type within the bounds through DeserializeNode;
+// accepted nodes must re-serialise, hash and copy without panicking.
+func H_WmptNode() {
+	var data []byte
+	if vp.Choose("raw", 8) == 0 {
+		data = []byte{0x01, 0x02, 0x03} // bytes the CBOR library rejects
+	} else {
+		data = marshalNode(genNode("n"))
+	}
+	var n wmpt.Node
+	var err error
+	if vp.NoPanic("C15.wmpt.deserializenode.nopanic", func() { n, err = wmpt.DeserializeNode(data) }) {
+		return
+	}
+	vp.Observe("node", err != nil)
+	if err == nil && n != nil {
+		vp.NoPanic("C15.wmpt.reencode.nopanic", func() {
+			_ = n.Weight()
+			_ = n.Hash()
+			_ = n.CalcHash()
+			_, _ = n.Serialize()
+			_ = n.Copy()
+			_ = n.CopyRoot(0, 1)
+		})
+		vp.Cover("C15.wmpt.node.accepted")
+	} else {
+		vp.Cover("C15.wmpt.node.rejected")
+	}
+	vp.Cover("C15.wmpt.node.done")
+}
+
+// H_WmptTrie: path exports / block proofs of up to 3 elements built from such nodes.
+func H_WmptTrie() {
+	np := vp.Choose("npairs", vp.Param("maxpairs", 3)+1)
+	pt := &wmpt.PersistTrie{}
+	for i := 0; i < np; i++ {
+		pt.Pairs = append(pt.Pairs, &wmpt.PersistTriePair{Value: marshalNode(genNodeSmall("p" + string(rune('0'+i))))})
+	}
+	data, err := cbor.Marshal(pt)
+	if err != nil {
+		panic(err)
+	}
+	if vp.Choose("entry", 2) == 0 {
+		t := wmpt.New(nil, nil)
+		var derr error
+		if vp.NoPanic("C15.wmpt.deserialize.nopanic", func() { derr = t.Deserialize(data) }) {
+			return
+		}
+		vp.Observe("trie", derr != nil)
+		if derr == nil {
+			vp.NoPanic("C15.wmpt.reencode.nopanic", func() {
+				_ = t.Root()
+				_ = t.Weight()
+			})
+		}
+	} else {
+		b := vp.Uint64("block")
+		var verr error
+		if vp.NoPanic("C15.wmpt.verifyproof.nopanic", func() { _, _, verr = wmpt.New(nil, nil).VerifyBlockProof(b, data) }) {
+			return
+		}
+		vp.Observe("proof", verr != nil)
+	}
+	vp.Cover("C15.wmpt.trie.done")
+}
+
+// genNodeSmall: one variant per element, fewer length classes (keeps 3-element products tractable).
+func genNodeSmall(name string) *wmpt.PersistNodeBase {
+	pn := &wmpt.PersistNodeBase{}
+	switch vp.Choose(name+".variant", 6) {
+	case 0:
+		n := []int{0, 2, 16, 17}[vp.Choose(name+".nchildren", 4)]
+		br := &wmpt.PersistNodeBranch{Hash: symBytes(name+".bhash", 32, false)}
+		if n > 0 {
+			br.Children = make([][]byte, n)
+			br.Children[0] = symBytes(name+".child", []int{0, 40, 41, 72, 73}[vp.Choose(name+".childlen", 5)], false)
+			br.Children[n-1] = symBytes(name+".c40", 40, false)
+		}
+		pn.Branch = br
+	case 1:
+		pn.Value = &wmpt.PersistNodeValue{Value: symBytes(name+".vvalue", 1, true), Hash: symBytes(name+".vhash", 32, false), Weight: vp.Uint64(name + ".vweight")}
+	case 2:
+		pn.Short = &wmpt.PersistNodeShort{Key: symBytes(name+".skey", []int{0, 1}[vp.Choose(name+".sklen", 2)], false), Hash: symBytes(name+".shash", 32, false),
+			Value: symBytes(name+".svalue", []int{39, 40}[vp.Choose(name+".svlen", 2)], false)}
+	case 3:
+		pn.NilNode = &wmpt.PersistNilNode{}
+	case 4:
+		pn.HashNode = &wmpt.PersistHashNode{Hash: symBytes(name+".hhash", []int{0, 32}[vp.Choose(name+".hhashlen", 2)], false), Weight: vp.Uint64(name + ".hweight")}
+	case 5: // no variant at all
+	}
+	return pn
 }
